@@ -247,8 +247,13 @@ def cubic_spline(
         outputs = torch.max(torch.min(outputs, input_right_cumwidths), input_left_cumwidths)
 
         # The closed-form roots (and the almost-quadratic shortcut) lose accuracy through cancellation,
-        # badly so in single precision: polish them with Newton steps on the monotone cubic of the bin.
-        for _ in range(2):
+        # badly so in single precision and next to a flat end of a bin: polish them with Newton steps on
+        # the monotone cubic of the bin, safeguarded by bisection on the bracket [left, right] of the bin
+        # (a Newton step from a point where the slope almost vanishes would otherwise overshoot).
+        bracket_lo = input_left_cumwidths.clone()
+        bracket_hi = input_right_cumwidths.clone()
+        resolution = torch.finfo(outputs.dtype).eps
+        for _ in range(64):
             shifted_outputs = outputs - input_left_cumwidths
             residual = (
                 (inputs_a * shifted_outputs + inputs_b) * shifted_outputs + inputs_c
@@ -256,12 +261,20 @@ def cubic_spline(
             slope = (
                 3 * inputs_a * shifted_outputs + 2 * inputs_b
             ) * shifted_outputs + inputs_c
-            step = torch.where(
-                slope > 0, residual / slope.clamp(min=1e-30), torch.zeros_like(residual)
+            bracket_hi = torch.where(residual > 0, torch.min(bracket_hi, outputs), bracket_hi)
+            bracket_lo = torch.where(residual < 0, torch.max(bracket_lo, outputs), bracket_lo)
+            newton = outputs - residual / slope.clamp(min=1e-30)
+            bisection = 0.5 * (bracket_lo + bracket_hi)
+            use_newton = (slope > 0) & (newton >= bracket_lo) & (newton <= bracket_hi)
+            new_outputs = torch.where(
+                residual == 0, outputs, torch.where(use_newton, newton, bisection)
             )
-            outputs = torch.max(
-                torch.min(outputs - step, input_right_cumwidths), input_left_cumwidths
+            converged = (new_outputs - outputs).abs() <= 2 * resolution * (
+                outputs.abs() + (input_right_cumwidths - input_left_cumwidths)
             )
+            outputs = new_outputs
+            if bool(converged.all()):
+                break
 
         shifted_outputs = outputs - input_left_cumwidths
         logabsdet = -torch.log(
